@@ -13,7 +13,7 @@ TEXT = {
          "Protocol (EStep.EDialect): absolute extrusion, moves never retract, E-only retract/recover cycles of one length A or G10/G11, not mixed, E-only extrusions allowed while not retracted, G92 E anywhere; plus the X/Y/Z dialect. " + D),
  "C05": ("C05_depth (virt.depth <= phys.depth, phys.depth in {0, A} resp. 0 with firmware parity), C05_never_deeper (phys.depth <= max of the file's depth so far), C05_recovered_first (an extruding command is reached at the file's depth: the owed recovery is issued exactly once before it), C05_firmware_params; admissibility lemmas show the protocol is inhabited.",
          "Same protocol as C04. " + D),
- "C09": ("handleGcode_ok / C09_total: on every well-formed (homed) state and for every event sequence the exception-aware model returns .ok of the total model, stays well-formed and returns None / ignore / a non-empty list; C18.parse_total closes the text entry point (the line regex matches at every offset).",
+ "C09": ("handleGcode_ok / C09_total: on every well-formed (homed) state and for every event sequence the exception-aware model returns .ok of the total model, stays well-formed and returns None / ignore / a non-empty list; C18.parse_total closes the text entry point (the line regex matches at every offset); C09_run_outputs / C09_run_strings: along every event sequence every forwarded command string (original, replacement, deferred, script, @-command output) is non-empty when the commands handed in and the script lines are.",
          "Float-only failures (inf/nan, rounding making a sqrt argument negative) are outside the field model and are covered only by the arc/filter correspondence suites."),
  "C16": ("Over the reals: samples on the circle at equal angular steps, consecutive samples <= 1 apart, last sample = commanded end point, travel_range (direction and size of the sweep), end_at_travel, planArc_covers (every point of the commanded arc is within one unit of a tested point); centre_partial + centre_counterexample for the radius form.",
          "K-D10 (radius-form centre wrong unless the chord is axis-aligned) is a known finding."),
